@@ -10,7 +10,9 @@
                                                                                on the PADDED periodic grid of nye rows)
      mirror_cols O g m i i' := (i + i') mod nxe = m mod nxe
      exact_y O g         := Nat.odd (g_nly g) = true \/ g_nly g = g_nye g     (odd retained count, or the full spectrum)
+     exact_y_at O g m    := Nat.odd (g_nly g) = true \/ (g_nly g = g_nye g /\ Z.even m = true)
      wsum O r w          := sum of w d over d = -r .. r
+     rsum O j0 n w       := sum of w j over j = j0 .. j0+n-1
      cyc n jm d          := (jm + d) mod n                                    (Proofs/C06Proofs.v)
    and table_noNyq_y / table_Nyq_y, table_noNyq / table_Nyq from Proofs/C07Mirror.v (the table without / of the
    unpaired retained frequency).  sel = fst is the concentration footprint, sel = snd the flux footprint.
@@ -19,7 +21,10 @@
    - on which side of the tower the centre of mass lies (upwind, not downwind): the theorems give "bearing from the
      tower to the centroid = wind_dir or wind_dir + 180";
    - oblique wind directions (no grid symmetry exists; the clause holds only to within "a few degrees" there);
-   - the tolerance "a few degrees" itself, and rounding: everything here is exact arithmetic under Laws O;
+   - the tolerance "a few degrees" itself, and rounding: everything here is exact arithmetic under Laws O (in binary64
+     compute_wind_fields U 90 has v = -U*6.1e-17, not 0);
+   - the RETURNED array for a tower half way between two grid lines when the retained count is even: there only the form
+     without the unpaired row holds (that row changes sign under the reflection).
    These stay with the end-to-end oracle of harness/props/c08.py.
    That the hypothesis no_v / no_u is what compute_wind_fields and the profiles produce for the cardinal directions
    is Properties/C08AxisWind.v (over R; a separate file because it imports the Interval/Coquelicot-based profile
